@@ -123,7 +123,7 @@ func (r Resources) Match(pattern, input string) bool {
 	starIdx, matchIdx := -1, 0
 
 	for sIdx < len(input) {
-		if pIdx < len(pattern) && (pattern[pIdx] == '?' || pattern[pIdx] == input[sIdx]) {
+		if pIdx < len(pattern) && pattern[pIdx] != '*' && (pattern[pIdx] == '?' || pattern[pIdx] == input[sIdx]) {
 			sIdx++
 			pIdx++
 		} else if pIdx < len(pattern) && pattern[pIdx] == '*' {
